@@ -220,7 +220,7 @@ def run_c06(tier, seed, replay):
                           cov={"rule": "all trees up to a size bound and seeded random deep trees built with the public constructors; trees produced by the parsers from random strings; stored text/height judged node by node against Syntax.Render/Height, print-parse round trip judged by TLC"})
 
 
-from gen import T, F, P, V, W  # noqa: E402
+from gen import T, F, P, V, W, U, B, H  # noqa: E402
 
 _sem_run = run
 
@@ -231,3 +231,78 @@ def run(pid, tier, seed, replay):  # noqa: F811
     if pid == "C06":
         return run_c06(tier, seed, replay)
     return _sem_run(pid, tier, seed, replay)
+
+
+# ----------------------------------------------------------------------------- C07 / C09
+def scoped_strings(rng, count):
+    """Formula texts over variable names that collide with the internal ones, with and without
+    binding errors, propositions in and outside the network {a, b}."""
+    import copy
+    out = []
+    for i in range(count):
+        fg = gen.FormulaGen(rng, ["a", "b"], wild=["p"], doms=["d"], p_wild=0.08, p_dom=0.3, p_quant=0.4, p_jump=0.2,
+                            var_names=("x", "xx", "xxx", "y", "z"), max_nest=4,
+                            binary=gen.BINARY_BOOL + ["EU", "AW"])
+        f = fg.gen(rng.randint(2, 12))
+        x = rng.random()
+        nodes = list(gen.subformulas(f))
+        if x < 0.15:
+            t = rng.choice(nodes); t.clear(); t.update(V(rng.choice(["x", "xx", "q"])))     # possibly free
+        elif x < 0.25:
+            t = rng.choice(nodes); inner = dict(t); t.clear(); t.update(H("jump", rng.choice(["x", "y", "xx"]), inner))
+        elif x < 0.35:
+            qs = [n for n in nodes if n["op"] in gen.QUANT]
+            if qs:
+                q = rng.choice(qs); inner = dict(q["a"]); q["a"] = H(rng.choice(gen.QUANT), q["v"], inner)
+        elif x < 0.45:
+            t = rng.choice(nodes); t.clear(); t.update(P(rng.choice(["c", "A", "x", "a_"])))
+        out.append(synprops.render_min(f, rng) if rng.random() < 0.5 else gen.render(f))
+    return out
+
+
+def run_c07(tier, seed, replay):
+    rng = random.Random(seed * 7919 + 7)
+    if replay:
+        items = json.load(open(replay))["items"]
+    else:
+        items = []
+        # all small trees over colliding names
+        atoms = [P("a"), P("c"), V("x"), V("xx"), V("y")]
+        hyb = [(q, v, "") for q in ("bind", "exists", "forall", "jump") for v in ("x", "xx", "y")]
+        n = 0
+        for s in range(1, (5 if tier == "thorough" else 4) + 1):
+            for t in synprops.all_trees(s, atoms if s <= 3 else atoms[:1] + atoms[2:], ["AX"], ["and"] if s > 3 else ["and", "EU"], hyb):
+                items.append({"id": "e%d" % n, "kind": "prep", "kinds": ["c07"], "text": gen.render(t)})
+                n += 1
+        for i, s in enumerate(scoped_strings(rng, 8000 if tier == "thorough" else 1500)):
+            items.append({"id": "r%d" % i, "kind": "prep", "kinds": ["c07"], "text": s})
+    return run_syn_events("C07", tier, seed, items, ["c07"], module="Trace_Scope.tla", cfg="Trace_Scope.cfg",
+                          cov={"rule": "all trees up to a size bound over variable names colliding with the internal ones (x, xx, y), and seeded random formulae with injected binding errors; accepted <=> WellScoped and known propositions; result = Scope.Rename, alpha-equivalent (de Bruijn), depth-named, idempotent"})
+
+
+def run_c09(tier, seed, replay):
+    import semprops
+    rng = random.Random(seed * 7919 + 9)
+    if replay:
+        items = json.load(open(replay))["items"]
+    else:
+        items = []
+        for i in range(1500 if tier == "thorough" else 260):
+            fg = gen.FormulaGen(rng, ["a", "b"], wild=["p", "q"], doms=["d", "e"], p_dom=0.5, p_quant=0.35, p_jump=0.2,
+                                var_names=("x", "y", "z", "xx", "zz"), patterns=0.05, max_nest=3)
+            batch = semprops.overlapping_batch(rng, fg, rng.randint(1, 3))
+            batch = [f for f in batch if gen.size(f) <= 16] or [fg.gen(6)]
+            items.append({"id": "c%d" % i, "kind": "canon", "kinds": ["c09canon", "c09dups"], "texts": [gen.render(f) for f in batch]})
+    return run_syn_events("C09", tier, seed, items, ["c09canon", "c09dups"], module="Trace_Scope.tla", cfg="Trace_Scope.cfg", chunk=40,
+                          cov={"rule": "seeded lists of 1-3 formulae built to share sub-formulae up to renaming and under different domains; every pair of sub-formulae: canonical texts equal <=> Scope.AlphaEqOpen; renaming injective and consistent with the canonical text; duplicates: counter n => at least n+1 occurrences with identical domains (Scope.IsOccurrenceOf)"})
+
+
+_run2 = run
+
+
+def run(pid, tier, seed, replay):  # noqa: F811
+    if pid == "C07":
+        return run_c07(tier, seed, replay)
+    if pid == "C09":
+        return run_c09(tier, seed, replay)
+    return _run2(pid, tier, seed, replay)
